@@ -99,6 +99,7 @@ PROPERTY_RULES: Dict[str, List[Scoped]] = {
         _r("LCA-PROPAGATE"), _r("TRAVERSAL", ("compute.reconciliation:reconcile_lca",)),
         _r("SOLVER-STATELESS", ("compute.reconciliation:reconcile_lca", "utils.trees:LowestCommonAncestor", "utils.trees:_euler", "utils.range_min_query:")),
         _r("READONLY-INPUT", ("compute.reconciliation:reconcile_lca",)), _r("COST-TRUTH", S_MODEL),
+        _r("MODEL-TABLE", ("model.reconciliation:rec/",)), _r("EVENT-TABLE"),
     ],
     "C08": [
         _r("TREE-WRITE-ARGS"), _r("FIELDS-SERIALISED"), _r("DICT-KEYS"), _r("FEATURE-COPY"),
@@ -157,11 +158,13 @@ PROPERTY_RULES: Dict[str, List[Scoped]] = {
         _r("DERIVED-QUERIES"), _r("EULER-INDEX"), _r("RMQ-WINDOWS"),
         _r("SOLVER-STATELESS", ("utils.trees:LowestCommonAncestor", "utils.trees:_euler", "utils.range_min_query:")),
     ],
-    "C18": [_r("BIT-ORDER"), _r("SEGMENT-MACHINE"), _r("SENTINEL", S_SUBSEQ)],
+    "C18": [
+        _r("BIT-ORDER"), _r("SEGMENT-MACHINE"), _r("SENTINEL", S_SUBSEQ),
+        _r("SOLVER-STATELESS", S_SUBSEQ), _r("NONE-SENTINEL-TRUTH", S_SUBSEQ), _r("MEMO-KEY", S_SUBSEQ),
+    ],
     "C19": [
         _r("RESTORE-PAIRING"), _r("FRESH-STARTS"), _r("INDEG-INIT"), _r("GRAPH-KEYS"), _r("READONLY-GRAPH"),
         _r("EMPTY-RESULT-GUARD"),
-        _r("SOLVER-STATELESS", S_SUBSEQ), _r("NONE-SENTINEL-TRUTH", S_SUBSEQ), _r("MEMO-KEY", S_SUBSEQ),
         _r("SOLVER-STATELESS", ("utils.toposort:",)), _r("MEMO-KEY", ("utils.toposort:",)),
     ],
     "C20": [
